@@ -12,6 +12,7 @@ import props_c17
 import props_c20
 import props_c12
 import props_c18
+import props_c19
 import vcheck
 from vcheck import Check, log
 
@@ -194,12 +195,14 @@ PROPS = {
                 "failing conversion, division by zero); a process crash of the harness is a violation",
     },
     "C09": {
-        "module": "Arca.Props.C09", "theorems": [], "instrumented": True,
+        "module": "Arca.Props.C09", "theorems": ['Arca.Props.C09.deploy_wait_is_sound', 'Arca.Props.C09.deploy_wait_is_sound_counterexample', 'Arca.Props.C09.deploy_wait_is_sound_partial', 'Arca.Props.C09.detector_sound_counterexample_enabling', 'Arca.Props.C09.detector_sound_counterexample_enabling_provided_while_parked', 'Arca.Props.C09.detector_sound_counterexample_starting', 'Arca.Props.C09.detector_sound_counterexample_starting_provided_while_parked', 'Arca.Props.C09.detector_sound_counterexample_completion_in_flight', 'Arca.Props.C09.detector_sound_counterexample', 'Arca.Props.C09.detector_sound_partial', 'Arca.Props.C09.active_step_reports_activity', 'Arca.Props.C09.windows_are_not_quiescent', 'Arca.Props.C09.detector_needs_quiescence_for_three_polls', 'Arca.Props.C09.one_active_poll_stops_detector', 'Arca.Props.C09.short_window_cannot_trigger'], "instrumented": True,
         "pins": ["workflow_workflow_loopState_checkForDeadlocks", "step_plugin_provider_runningStep_provideDeployInput",
                  "step_plugin_provider_runningStep_provideEnablingInput", "step_plugin_provider_runningStep_provideStartingInput",
                  "step_plugin_provider_runningStep_deployStage", "step_plugin_provider_runningStep_enableStage",
                  "step_plugin_provider_runningStep_startStage", "step_plugin_provider_runningStep_transitionStageWithOutput",
-                 "step_plugin_provider_runningStep_completeStep", "step_foreach_provider_runningStep_ProvideStageInput",
+                 "step_plugin_provider_runningStep_completeStep", "step_plugin_provider_runningStep_runStage",
+                 "step_plugin_provider_runningStep_startPlugin", "step_plugin_provider_runningStep_postDeployment",
+                 "step_plugin_provider_runningStep_transitionFromFailedStage", "step_foreach_provider_runningStep_ProvideStageInput",
                  "step_foreach_provider_runningStep_run"],
         "streams": [{"name": "sched", "instrumented": True,
                      "harness": lambda t, s: ["sched", "-n", "3" if t == "quick" else "25", "-seed", str(s), "-points", "45" if t == "quick" else "0", "-hold", "60"],
@@ -241,6 +244,8 @@ PROPS["C13"] = props_c13.SPEC
 PROPS["C08"] = props_c08.SPEC
 PROPS["C17"] = props_c17.SPEC
 PROPS["C20"] = props_c20.SPEC
+PROPS["C19"] = props_c19.SPEC_C19
+PROPS["C14"] = props_c19.SPEC_C14
 
 
 def setup():
